@@ -9,7 +9,16 @@ for P in seeded/*/patch.diff selftest/mutants/*.diff; do
   if git -C "$S" apply -3 "$(realpath "$P")" >/dev/null 2>&1 && [ -z "$(git -C "$S" diff --name-only --diff-filter=U)" ]; then
     git -C "$S" diff HEAD > "$P.new" && mv "$P.new" "$P" && echo "refreshed $P"
   else
-    echo "CANNOT REFRESH $P"
+    # last resort: context lines moved or changed next to the hunk -- let patch(1) place it with fuzz, keep the result
+    # only if the sources still compile
+    git -C "$S" checkout -q -- . && git -C "$S" clean -fdq
+    if ( cd "$S" && patch -p1 -F3 -s --no-backup-if-mismatch < "$(realpath "$P")" >/dev/null 2>&1 ) && \
+       ( cd "$S" && /venv/bin/python -m compileall -q src >/dev/null 2>&1 ); then
+      find "$S" -name '*.orig' -delete; find "$S" -name '__pycache__' -type d -prune -exec rm -rf {} +
+      git -C "$S" diff HEAD > "$P.new" && mv "$P.new" "$P" && echo "refreshed (fuzzy) $P"
+    else
+      echo "CANNOT REFRESH $P"
+    fi
   fi
   git -C /repo worktree remove --force "$S" >/dev/null 2>&1; rm -rf "$S"
 done
